@@ -126,7 +126,8 @@ def check_config(ctx, F, tag):
                 if b.name == "<bit_vector::BitVector as serialize::Serialize>::load":
                     fs = facts_at(b, bi)
                     ones = strip_casts(b.term_of_operand(ops["ones"]))
-                    ok = any(f[0] == "cmp" and f[1] == "Le" and strip_casts(f[2]) == ones and m(Call(lambda n_: n_.endswith("::len"), ANY), f[3]) for f in fs)
+                    ok = any(f[0] == "cmp" and ((f[1] == "Le" and strip_casts(f[2]) == ones and m(Call(lambda n_: n_.endswith("::len"), ANY), f[3])) or
+                                                (f[1] == "Ge" and strip_casts(f[3]) == ones and m(Call(lambda n_: n_.endswith("::len"), ANY), f[2]))) for f in fs)
                     ctx.ob("C01.R3.cached-count", b.name + tag, loc(st["sp"]), ok, "guard-dominance", "loaded ones is validated against data.len() (ones > len -> Err): %s" % ok)
                 else:
                     data_root = root_local(b, ops["data"])
@@ -138,6 +139,19 @@ def check_config(ctx, F, tag):
                         calls = [t for _, t in b.calls() if callee_name(t) == "raw_vector::RawVector::count_ones"]
                         ok = len(calls) == 1 and resolve_ref_local(b, calls[0]["args"][0]) is not None and root_local(b, {"l": resolve_ref_local(b, calls[0]["args"][0]), "p": []}) == data_root
                         # and no mutation of data between the count and the aggregate
+                    if not ok:
+                        # the count stored after the value is built (`BitVector { ones: 0, data, .. }; v.ones = v.data.count_ones()`):
+                        # every path from the aggregate to the return passes a store of count_ones(<the value>.data) into .ones
+                        from effects import field_store_blocks
+                        from guards import must_pass_through
+                        later = []
+                        for sbi, ssi, sst in field_store_blocks(b, "bit_vector::BitVector", "ones"):
+                            tt = core(b.term_of_rvalue(sst["rv"]))
+                            if tt[0] == "call" and tt[1] == "raw_vector::RawVector::count_ones" and any(x[0] == "field" and x[2] == "data" for x in subterms(tt)) and \
+                                    (sbi == bi or b.dominates(bi, sbi)):
+                                later.append(sbi)
+                        if later and (bi in later or must_pass_through(b, bi, later)):
+                            ok = True
                     ctx.ob("C01.R3.cached-count", b.name + tag, loc(st["sp"]), ok, "term-provenance", "ones = count_ones() of the local that becomes data: %s" % ok)
     ctx.count("bitvector-aggregates" + tag, n)
     ctx.floor("bitvector-aggregates" + tag, 2)
